@@ -1432,5 +1432,134 @@ Proof.
       exists it. split; auto.
 Qed.
 
+
+(* ------------------------------------------------------------------ what the log says *)
+
+(** keys passed to [view_fn], in call order *)
+Definition built (log : list event) : list N :=
+  flat_map (fun e => match e with EvBuild k _ _ => [k] | _ => [] end) log.
+
+Lemma built_app : forall l1 l2, built (l1 ++ l2) = built l1 ++ built l2.
+Proof. intros. unfold built. apply flat_map_app. Qed.
+
+Lemma built_nil : forall l, (forall e, In e l -> match e with EvBuild _ _ _ => False | _ => True end) -> built l = [].
+Proof.
+  induction l as [|e l IH]; intros H; [reflexivity|]. unfold built in *. cbn [flat_map].
+  rewrite IH by (intros; apply H; right; auto). specialize (H e (or_introl eq_refl)).
+  destruct e; auto; contradiction.
+Qed.
+
+Lemma built_add_log : forall tasks, built (add_log tasks) = map (fun tx => it_key (snd tx)) tasks.
+Proof. induction tasks as [|tx tasks IH]; [reflexivity|]. unfold built, add_log in *. cbn [flat_map map app]. rewrite IH. reflexivity. Qed.
+
+Lemma add_tasks_fresh : forall items adds nx g t x, In (t, x) (add_tasks m items nx g adds) ->
+  g <= it_gen x /\ (forall n, In n (it_nodes x) -> (nx <= n)%N).
+Proof.
+  induction adds as [|ad adds IH]; intros nx g t x H; [contradiction|].
+  cbn [add_tasks] in H. destruct H as [E|H].
+  - inversion E. subst. cbn [it_gen it_nodes]. split; auto. intros n Hn. apply in_map_iff in Hn.
+    destruct Hn as [j [Ej _]]. lia.
+  - destruct (IH _ _ _ _ H) as [H1 H2]. split; [lia|]. intros n Hn. specialize (H2 n Hn). lia.
+Qed.
+
+Definition full_log : list event :=
+  unmount_log ++ nondom_log xof ms ++ dom_log xof ms ++ add_log tasksA.
+
+Lemma log_unmounts : forall it, In it its -> ~ In (it_key it) to ->
+  In (EvUnmount (it_key it) (it_gen it)) full_log.
+Proof.
+  intros it Hit Hn. apply In_nth_error in Hit. destruct Hit as [i Hi].
+  destruct (its_from _ _ Hi) as [Hf Ei].
+  assert (In i r) as Hr.
+  { apply (ls_rem _ _ _ _ _ _ _ _ LS). split; [|fold from; eauto].
+    assert (i < length its) by (apply nth_error_Some; congruence). rewrite map_length. lia. }
+  unfold full_log. apply in_or_app. left. unfold unmount_log. apply in_map_iff. exists i.
+  rewrite <- Ei. auto.
+Qed.
+
+Lemma log_built : NoDup (built full_log) /\
+  (forall k, In k (built full_log) <-> In k to /\ ~ In k from).
+Proof.
+  assert (built full_log = map it_key news) as E.
+  { unfold full_log. rewrite !built_app, built_add_log.
+    rewrite (built_nil unmount_log), (built_nil (nondom_log xof ms)), (built_nil (dom_log xof ms)).
+    - unfold news. rewrite map_map. reflexivity.
+    - intros e He. unfold dom_log in He. apply in_flat_map in He. destruct He as [mv [_ He]].
+      destruct (m_dom mv); [|contradiction]. destruct He as [<-|[<-|[]]]; exact I.
+    - intros e He. unfold nondom_log in He. apply in_flat_map in He. destruct He as [mv [_ He]].
+      destruct (m_dom mv); [contradiction|]. destruct He as [<-|[]]; exact I.
+    - intros e He. unfold unmount_log in He. apply in_map_iff in He. destruct He as [i [<- _]]. exact I. }
+  rewrite E. split; [apply news_keys_nodup|]. intros k. split; [apply news_key_facts|].
+  intros [Hk Hf]. apply In_nth_error in Hk. destruct Hk as [j Hj].
+  assert (In j (map a_at a)) as Hja.
+  { apply (ls_add _ _ _ _ _ _ _ _ LS). split; [|eauto].
+    assert (j < length to) by (apply nth_error_Some; congruence). lia. }
+  apply in_map_iff in Hja. destruct Hja as [ad [Ea Had]]. rewrite news_keys. apply in_map_iff.
+  exists ad. split; auto. rewrite Ea. apply nth_error_nth. auto.
+Qed.
+
+Lemma log_set_index_sound : forall k g i, In (EvSetIndex k g i) full_log ->
+  exists it, In it its /\ it_key it = k /\ it_gen it = g /\ index_of k to = Some i.
+Proof.
+  intros k g i H. unfold full_log in H. rewrite !in_app_iff in H. destruct H as [H|[H|[H|H]]].
+  - unfold unmount_log in H. apply in_map_iff in H. destruct H as [j [E _]]. discriminate.
+  - unfold nondom_log in H. apply in_flat_map in H. destruct H as [mv [Hmv H]].
+    destruct (m_dom mv); [contradiction|]. destruct H as [E|[]]. inversion E. subst.
+    destruct (ms_facts mv Hmv) as [_ [_ [H3 [_ [H5 _]]]]]. exists (xof mv). auto.
+  - unfold dom_log in H. apply in_flat_map in H. destruct H as [mv [Hmv H]].
+    destruct (m_dom mv); [|contradiction]. destruct H as [E|[E|[]]]; [discriminate|]. inversion E. subst.
+    destruct (ms_facts mv Hmv) as [_ [_ [H3 [_ [H5 _]]]]]. exists (xof mv). auto.
+  - unfold add_log in H. apply in_flat_map in H. destruct H as [tx [_ H]].
+    destruct H as [E|[E|[]]]; discriminate.
+Qed.
+
+Lemma log_set_index_complete : forall it i j, nth_error its i = Some it ->
+  index_of (it_key it) to = Some j -> i <> j -> In (EvSetIndex (it_key it) (it_gen it) j) full_log.
+Proof.
+  intros it i j Hi Hj Hne. destruct (its_from _ _ Hi) as [Hf Ei].
+  assert (In i (map m_from ms)) as Hm'.
+  { eapply (ls_mv_all _ _ _ _ _ _ _ _ LS); eauto.
+    assert (i < length its) by (apply nth_error_Some; congruence). rewrite map_length. lia. }
+  apply in_map_iff in Hm'. destruct Hm' as [mv [E Hmv]].
+  destruct (ms_facts mv Hmv) as [_ [_ [_ [_ [H5 _]]]]].
+  assert (xof mv = it) as Ex by (unfold xof; rewrite E; auto). rewrite Ex in H5.
+  assert (m_to mv = j) as Et by congruence.
+  unfold full_log. rewrite !in_app_iff. destruct (m_dom mv) eqn:Ed.
+  - right. right. left. unfold dom_log. apply in_flat_map. exists mv. split; auto. rewrite Ed, Ex, Et.
+    right. left. reflexivity.
+  - right. left. unfold nondom_log. apply in_flat_map. exists mv. split; auto. rewrite Ed, Ex, Et.
+    left. reflexivity.
+Qed.
+
+(** everything the property asks of one [rebuild], for the general case of [apply_diff] *)
+Theorem apply_general_props :
+  let w := apply_general m r ms a to w0 in
+  let items' := somes (w_children w) in
+  w_panic w = false /\ map it_key items' = to /\
+  w_dom w = pre ++ flat_map it_nodes items' ++ mk :: post /\
+  wf_items pre post mk (w_next w) items' /\ (next <= w_next w)%N /\ gen <= w_gen w /\
+  (forall it, In it its -> In (it_key it) to -> In it items') /\
+  (forall it, In it items' -> In it its \/
+     (gen <= it_gen it /\ forall n, In n (it_nodes it) -> (next <= n)%N)) /\
+  (forall it, In it its -> ~ In (it_key it) to -> In (EvUnmount (it_key it) (it_gen it)) (w_log w)) /\
+  NoDup (built (w_log w)) /\
+  (forall k, In k (built (w_log w)) <-> In k to /\ ~ In k (map it_key its)) /\
+  (forall k g i, In (EvSetIndex k g i) (w_log w) ->
+     exists it, In it its /\ it_key it = k /\ it_gen it = g /\ index_of k to = Some i) /\
+  (forall it i j, nth_error its i = Some it -> index_of (it_key it) to = Some j -> i <> j ->
+     In (EvSetIndex (it_key it) (it_gen it) j) (w_log w)).
+Proof.
+  pose proof apply_general_ok as H. cbv zeta in *.
+  destruct H as [P [K [D [Prov [Id [L [Nx [Gn W]]]]]]]].
+  fold full_log in L. rewrite L. destruct log_built as [B1 B2].
+  split; [exact P|]. split; [exact K|]. split; [exact D|]. split; [exact W|].
+  split; [rewrite Nx; lia|]. split; [rewrite Gn; lia|]. split; [exact Id|].
+  split; [|split; [apply log_unmounts|split; [exact B1|split; [exact B2|split;
+            [apply log_set_index_sound|apply log_set_index_complete]]]]].
+  intros it Hit. destruct (Prov it Hit) as [Ho|Hn]; auto. right.
+  unfold news in Hn. apply in_map_iff in Hn. destruct Hn as [[t x] [E Hin]]. cbn [snd] in E. subst x.
+  apply add_tasks_fresh in Hin. exact Hin.
+Qed.
+
 End Main.
 End Apply.
